@@ -190,13 +190,27 @@ def comprehension_of(fn_node, name: str):
                 if isinstance(st, ast.Expr):
                     # for a in A: [for b in B:] [if c:] L.append(E)      (every level holds exactly the next one, no else arms)
                     chain, cur, up = [], st, getattr(st, "_parent", None)
+                    lead_env = None
+                    if isinstance(up, ast.For) and not up.orelse and len(up.body) > 1 and up.body[-1] is st \
+                            and all(isinstance(x, ast.Assign) and len(x.targets) == 1 and isinstance(x.targets[0], ast.Name) for x in up.body[:-1]):
+                        # single = (e,); L.append((key(single), 1, single, i)): locals of one round, read in place
+                        lead_env = {}
+                        for x in up.body[:-1]:
+                            lead_env[x.targets[0].id] = _subst_names(x.value, lead_env)
+                        outside = sum(1 for n2 in ast.walk(fn_node) if isinstance(n2, ast.Name) and n2.id in lead_env) - \
+                            sum(1 for n2 in ast.walk(up) if isinstance(n2, ast.Name) and n2.id in lead_env)
+                        if outside == 0:
+                            chain.append(up)
+                            cur, up = up, getattr(up, "_parent", None)
+                        else:
+                            lead_env = None
                     while isinstance(up, (ast.For, ast.If)) and up.body == [cur] and not up.orelse:
                         chain.append(up)
                         cur, up = up, getattr(up, "_parent", None)
                     while chain and isinstance(chain[-1], ast.If):
                         chain.pop()                       # an `if` around the whole loop is not part of the comprehension
                     if chain:
-                        loops.append((chain[::-1], n.args[0]))
+                        loops.append((chain[::-1], _subst_names(n.args[0], lead_env) if lead_env else n.args[0]))
                         continue
             other.append(n)
     if len(inits) != 1 or len(loops) != 1 or other:
